@@ -11,8 +11,8 @@ CLAIMED = {
          "Pre-emption inside C is at function-entry granularity of non-inlined functions. Operations on the same object from two threads are not generated. Entropy drawn while a curve is being lazily loaded is served from a separate stream so that solo and interleaved runs are comparable.",
          "DESIGN.md section 4 (C19), section 3.3"),
  "C17": ("fault_enumeration",
-         "deterministic simulation on an AddressSanitizer build with allocator fault injection: every history runs fault-free and then once per failing allocation index (seeded sample in the quick tier, all indices in the thorough tier), each in a forked child",
-         "Histories (C09 segmentation / buffer-carrier / aliasing histories, C10 life-cycle histories with copies, and a sweep over hashes, XOF squeezing, KDFs, bcrypt, scrypt, PKCS#1 v1.5 and OAEP decoding, strxor, AES-NI short and partial inputs, CFB with illegal segment sizes, OCB tag lengths, BLAKE2 parameters, EC points on nine curves incl. mixed-curve operands, ECDSA/EdDSA, DH, modexp, with copy / delete / gc.collect in between) are executed against /repo built with -fsanitize=address and PYTHONMALLOC=malloc. A shim linked into the build makes the i-th allocation of pycryptodome's C code return NULL; i ranges over a seeded sample of 24 indices per history (quick) or all of them (thorough). Any AddressSanitizer report or death by signal is a violation, keyed by error kind and the first pycryptodome frame. Enumerates allocation failures per history; histories themselves are sampled.",
+         "deterministic simulation on an AddressSanitizer build with allocator fault injection: every history runs fault-free and then once per failing allocation index (seeded sample of 24 indices per history in the quick tier, 128 in the thorough tier, every index when there are fewer), each in a forked child",
+         "Histories (C09 segmentation / buffer-carrier / aliasing histories, C10 life-cycle histories with copies, and a sweep over hashes, XOF squeezing, KDFs, bcrypt, scrypt, PKCS#1 v1.5 and OAEP decoding, strxor, AES-NI short and partial inputs, CFB with illegal segment sizes, OCB tag lengths, BLAKE2 parameters, EC points on nine curves incl. mixed-curve operands, ECDSA/EdDSA, DH, modexp, with copy / delete / gc.collect in between) are executed against /repo built with -fsanitize=address and PYTHONMALLOC=malloc. A shim linked into the build makes the i-th allocation of pycryptodome's C code return NULL; i ranges over a seeded sample of 24 (quick) or 128 (thorough) indices per history, or over all of them when the history allocates less often. Any AddressSanitizer report or death by signal is a violation, keyed by error kind and the first pycryptodome frame. Enumerates allocation failures per history; histories themselves are sampled.",
          "Leaks are not judged. A wrong value without an exception under an injected allocation failure is recorded as an observation only (the property is a memory-safety statement). No UBSan. Pre-emption and threads are C19's business.",
          "DESIGN.md section 4 (C17)"),
  "C16": ("exploration",
